@@ -3108,6 +3108,13 @@ class Mailbox:
         else:
             raise MailboxExists(f"Destination mailbox '{new_name}' exists")
 
+        # If the new name has superior hierarchical names that do not exist
+        # yet they are created (rfc3501 section 6.3.5).
+        #
+        new_parent_name = os.path.dirname(new_name)
+        if new_parent_name and not server.folder_exists(new_parent_name):
+            await cls.create(new_parent_name, server)
+
         # Inbox is handled specially.
         #
         if mbox.name.lower() != "inbox":
